@@ -164,6 +164,7 @@ func (r *Run) CheckUP4Image(prop, ctx, cause string, o UP4Opts) {
 	wantApps := map[appFilterKey]bool{}
 	appUser := map[appFilterKey]uint64{} // a live session that uses the filter (a tainted one when there is one)
 	wantPeers := map[uint32]bool{}       // by peer address
+	maybePeers := map[uint32]bool{}      // named by a FAR that does not forward at the moment
 	ueOf := func(s *CPSession) uint32 {
 		for _, p := range s.PDRs {
 			if p.SrcIface == IfCore && p.HasUEIP {
@@ -205,6 +206,11 @@ func (r *Run) CheckUP4Image(prop, ctx, cause string, o UP4Opts) {
 				// a FAR that no PDR references is still sent to the plug-in, which creates its peer
 				_ = used
 				wantPeers[ipU32(f.PeerIP)] = true
+			} else if f.HasOHC && f.DstIface == IfAccess && f.PeerIP != nil {
+				// a FAR that buffers or drops for the moment but still carries the
+				// tunnel parameters: whether that counts as "using" the peer the
+				// property does not say - its entry may be there, and need not
+				maybePeers[ipU32(f.PeerIP)] = true
 			}
 		}
 	}
@@ -264,6 +270,9 @@ func (r *Run) CheckUP4Image(prop, ctx, cause string, o UP4Opts) {
 		dst, _ := v.param(e, "dst_addr")
 		src, _ := v.param(e, "src_addr")
 		sport, _ := v.param(e, "sport")
+		if !wantPeers[uint32(dst)] && maybePeers[uint32(dst)] {
+			continue
+		}
 		if !wantPeers[uint32(dst)] {
 			bad(0, "tunnel_peers", "entry-not-used-by-live-rule", "tunnel_peers entry id %d towards %v is used by no live FAR", id, u32IP(uint32(dst)))
 			continue
